@@ -854,13 +854,15 @@ class Interp:
             return NIL
         if k == 'loopscope':
             kind, cnt, w = n[1:4]
+            last = NIL
             for i in range(cnt):
                 def it():
                     self.mark(0 if self.lookup(w) is NIL else 1)
                     self.assign(w, 7, private=True)
-                    self.mark(self.lookup(w))
-                self.in_scope(it, {'_i': i + 1} if kind == 'for' else {'_x': 1, '_foreachindex': i})
-            return NIL
+                    return self.mark(self.lookup(w))
+                # like `for` and `forEach`, the statement yields the value of its last iteration
+                last = self.in_scope(it, {'_i': i + 1} if kind == 'for' else {'_x': 1, '_foreachindex': i})
+            return last
         if k == 'for':
             v, a, b, step, blk = n[1:6]
             s = 1 if step is None else step
